@@ -12,8 +12,10 @@ Transliteration of
 
 Strings are byte lists (`Bytes`).  Opaque library results enter as inputs of the abstract request:
 `util.IsLoopback` of the listener address and of `Host`, `CrossOriginProtection.Check`, the base media
-type returned by `mime.ParseMediaType`, the result of `checkRequest`, the result of `extractName`,
-and `base64.StdEncoding` (a pair `enc`/`dec`; the theorems assume only `dec (enc s) = some s`).
+type returned by `mime.ParseMediaType`, the result of `checkRequest`, whether the non-identifying members of `params`
+decode (second result of `extractName`), and `base64.StdEncoding` (a pair `enc`/`dec`; the theorems assume only `dec (enc s) = some s`).
+`params` itself is NOT an opaque input: §E′ decodes the member list of the JSON text (exact member names, repeated
+members) into the name, the arguments and the `_meta` version the gates compare the headers with.
 Core Lean only: linked into `drv_preflight`.  All functions are total.
 -/
 namespace Preflight
@@ -599,6 +601,126 @@ def setStandardHeaders (c : B64) (pv : Bytes) (m : Msg) (tool : Option Props) : 
         | some p => generateParamHeaders c p m.args
         | none => []
       else []))
+
+/-! ## E′. `params` as the JSON text has it, and its (case-sensitive) decoding
+
+A foreign peer may send any JSON object as `params`: members the SDK does not know, the same member twice, members
+whose names differ from a known one only in case (`"Name"`, `"URI"`, `"Arguments"`, `"_META"`).  The SDK decodes with
+`internal/json`, which matches member names byte for byte; `encoding/json` would also match case-insensitively.  What
+the gates compare the headers with must be what the dispatcher (the same decoder) later hands to the handler, so the
+model decodes the member list itself instead of taking `extractName`'s / `extractRequestMeta`'s results as inputs. -/
+
+/-- The `params` member of a request: absent, `null`, some other non-object, or the object's members in source order —
+repeated names and names differing only in case are all kept. -/
+inductive RawParams where
+  | absent
+  | null
+  | other
+  | obj (members : List (Bytes × JV))
+
+/-- Decoding the `string` field with json name `key` of a Go struct: member names are matched exactly; a repeated
+member overwrites; `null` leaves the field as it is; any other value is an error (`none`).  `cur` = the field so far. -/
+def strFieldFrom (key : Bytes) : Bytes → List (Bytes × JV) → Option Bytes
+  | cur, [] => some cur
+  | cur, (k, v) :: rest =>
+    if k = key then
+      match v with
+      | .str s => strFieldFrom key s rest
+      | .null => strFieldFrom key cur rest
+      | _ => none
+    else strFieldFrom key cur rest
+
+/-- Decoding a map-typed field (`map[string]json.RawMessage`, `Meta`): an object is merged into the map so far (a later
+entry of the same name wins, see `fieldGet`), `null` resets the map to nil, any other value is an error.
+`cur = none` is the nil map. -/
+def mapFieldFrom (key : Bytes) : Option (List (Bytes × JV)) → List (Bytes × JV) → Option (Option (List (Bytes × JV)))
+  | cur, [] => some cur
+  | cur, (k, v) :: rest =>
+    if k = key then
+      match v with
+      | .obj f => mapFieldFrom key (some (cur.getD [] ++ f)) rest
+      | .null => mapFieldFrom key none rest
+      | _ => none
+    else mapFieldFrom key cur rest
+
+/-- The member `extractName` returns for `method` (regenerated from its `switch` and the json tags). -/
+def nameMemberOf (method : Bytes) : Option Bytes :=
+  (nameMember.find? (fun e => e.1 == method)).map (·.2)
+
+/-- The first result of `extractName(method, params)` as far as the identifying member decides it: `none` = the
+decoding fails or the method has no name (`"", false`). -/
+def decodeName (method : Bytes) (p : RawParams) : Option Bytes :=
+  match nameMemberOf method with
+  | none => none
+  | some key =>
+    match p with
+    | .obj ms => strFieldFrom key [] ms
+    | .null => some []
+    | _ => none
+
+/-- Decoding a `json.RawMessage` field: the value of the last member called exactly `key` (`cur` = the field so far). -/
+def rawFieldFrom (key : Bytes) : Option JV → List (Bytes × JV) → Option JV
+  | cur, [] => cur
+  | cur, (k, v) :: rest => if k = key then rawFieldFrom key (some v) rest else rawFieldFrom key cur rest
+
+/-- `params.arguments` as `validateParamHeaders` / `generateParamHeaders` decode it — REPAIRED behaviour (fix
+preflight-F31): the arguments are those of the LAST member called exactly `arguments`, which is what the dispatcher
+hands to the tool handler (`CallToolParamsRaw.Arguments` is a `json.RawMessage`: a repeated member overwrites).  The
+pinned tree decodes straight into a `map[string]json.RawMessage`, which MERGES repeated members (`decodeArgsUnrepaired`). -/
+def decodeArgs : RawParams → Args
+  | .obj ms =>
+    match rawFieldFrom memberArguments none ms with
+    | none => .missing
+    | some .null => .missing
+    | some (.obj f) => .obj f
+    | some _ => .bad
+  | .null => .missing
+  | _ => .bad
+
+/-- The pinned tree's decoding of `params.arguments` (before fix preflight-F31): repeated `arguments` members are merged. -/
+def decodeArgsUnrepaired : RawParams → Args
+  | .obj ms =>
+    match mapFieldFrom memberArguments none ms with
+    | none => .bad
+    | some none => .missing
+    | some (some f) => .obj f
+  | .null => .missing
+  | _ => .bad
+
+/-- `extractRequestMeta(params)[MetaKeyProtocolVersion].(string)`, `""` when there is none. -/
+def decodeMetaVersion : RawParams → Bytes
+  | .obj ms =>
+    match mapFieldFrom memberMeta none ms with
+    | some (some f) =>
+      (match fieldGet metaKeyProtocolVersion f with
+       | some (.str s) => s
+       | _ => [])
+    | _ => []
+  | _ => []
+
+/-- `server.getServerTool(name)`: the registered tools (name, input-schema properties). -/
+def lookupTool (tools : List (Bytes × Props)) (name : Bytes) : Option Props :=
+  (tools.find? (fun e => e.1 == name)).map (·.2)
+
+/-- A message of the body before its `params` are decoded. -/
+structure RawMsg where
+  isReq : Bool
+  method : Bytes
+  isCall : Bool
+  check : CheckRes               -- opaque: `checkRequest(jreq, methodInfos)`
+  decodeOk : Bool                -- opaque: the members other than the identifying one decode into the method's params type
+  params : RawParams
+  tools : List (Bytes × Props)   -- the server's tool table
+
+/-- What the gates see of a message: name, `_meta` version, arguments and the called tool, all decoded from the member
+list with exact member names. -/
+def RawMsg.decode (m : RawMsg) : Msg :=
+  { isReq := m.isReq, method := m.method, isCall := m.isCall, check := m.check,
+    metaVersion := decodeMetaVersion m.params,
+    nameOk := m.decodeOk && (decodeName m.method m.params).isSome,
+    name := (decodeName m.method m.params).getD [],
+    args := decodeArgs m.params,
+    tool := lookupTool m.tools ((decodeName m.method m.params).getD []) }
 
 /-! ## F. The gate chain -/
 
